@@ -50,6 +50,19 @@ Theorem C05_src_depth_char : src_checkable_get_downtime_depth_recognised = true 
 Proof. exact src_depth_char. Qed.
 Print Assumptions C05_src_depth_char.
 
+(* Downtime::TriggerDowntime as a state-passing function (attribute writes -> new state, other effects -> event list):
+   one level of the model's trigger_dt - nothing unless dt_can_be_triggered; trigger_time written only when 0; clean-up
+   timer armed; every existing chained downtime triggered with the same instant in list order; OnDowntimeTriggered last *)
+Theorem C05_src_trigger_downtime : src_downtime_trigger_downtime_recognised = true ->
+  forall now d t (ex : Z -> bool),
+    xdt src_downtime_trigger_downtime now d t (d_triggers d) ex
+    = if dt_can_be_triggered now d
+      then (if d_trigger d =? 0 then t else d_trigger d,
+            XeArmCleanup :: map (fun c => XeTriggerChild c t) (filter ex (d_triggers d)) ++ [XeTriggered])
+      else (d_trigger d, []).
+Proof. exact src_downtime_trigger_downtime_eq. Qed.
+Print Assumptions C05_src_trigger_downtime.
+
 Example C05_src_nonvacuous : src_downtime_can_be_triggered_recognised = true -> src_downtime_can_be_triggered 15 false 10 20 0 5 = true /\ src_downtime_can_be_triggered 21 false 10 20 0 5 = false /\ src_downtime_is_in_effect 15 false 10 20 12 5 = true.
 Proof. intro H; xl_rec H. all: repeat split; vm_compute; reflexivity. Qed.
 
